@@ -13,6 +13,9 @@
 From XcpModel Require Import Base ConcBlock ConcFile ConcFault CopyLoop.
 From XcpProofs Require Import ConcBlockProofs ConcFileProofs ConcFaultProofs CopyLoopProofs.
 From Coq Require Import Lia.
+From XcpModel Require Import Extracted.
+From XcpProofs Require Import PinnedSource.
+From XcpPins Require Import Pin_feedback_new Pin_parfile_copy Pin_parblock_copy Pin_main_main.
 
 (* (a) parblock and parfile, with failures: some thread can always move *)
 Theorem C07_parblock_no_deadlock : forall W Q ops s, (1 <= W)%nat -> (1 <= Q)%nat ->
@@ -75,6 +78,17 @@ Example C07_nonvacuous :
      XDrv; XMain] = Some s /\ x_main s = MExit false.
 Proof. eexists. split; [vm_compute; reflexivity|reflexivity]. Qed.
 
+(* ---- the glue functions this property's hand-written model mirrors are, token for token, the ones it was
+   validated against (an edit re-opens the obligation; harness/repin.py re-pins after re-validation) ---- *)
+Theorem C07_src_pin_feedback_new : pin_unchanged name_feedback_new.
+Proof. exact pin_feedback_new. Qed.
+Theorem C07_src_pin_parfile_copy : pin_unchanged name_parfile_copy.
+Proof. exact pin_parfile_copy. Qed.
+Theorem C07_src_pin_parblock_copy : pin_unchanged name_parblock_copy.
+Proof. exact pin_parblock_copy. Qed.
+Theorem C07_src_pin_main_main : pin_unchanged name_main_main.
+Proof. exact pin_main_main. Qed.
+
 Print Assumptions C07_parblock_no_deadlock.
 Print Assumptions C07_parfile_no_deadlock.
 Print Assumptions C07_parblock_bounded.
@@ -86,3 +100,7 @@ Print Assumptions C07_parfile_detail_no_deadlock.
 Print Assumptions C07_copy_bytes_bounded.
 Print Assumptions C07_copy_bytes_fuel.
 Print Assumptions C07_block_job_fuel.
+Print Assumptions C07_src_pin_feedback_new.
+Print Assumptions C07_src_pin_parfile_copy.
+Print Assumptions C07_src_pin_parblock_copy.
+Print Assumptions C07_src_pin_main_main.
